@@ -40,35 +40,49 @@ def Problem.preds (p : Problem) : List Pred := p.formulas.foldl (fun acc a => ex
 def Problem.symbols (p : Problem) : List String := p.formulas.foldl (fun acc a => ext acc a.formula.symbols) []
 def Problem.fcs (p : Problem) : List FnConst := p.formulas.foldl (fun acc a => ext acc a.formula.fcs) []
 
-def GTerm.renameSym (conf : List Pred) : GTerm → GTerm
-  | .symb (.sym s) => if (⟨s, 0⟩ : Pred) ∈ conf then .symb (.sym (s ++ "__s")) else .symb (.sym s)
-  | t => t
+/-- the names tried for a propositional predicate `s` that clashes with a symbolic constant:
+    `s_p`, `s_p1`, `s_p2`, … -/
+def propName (s : String) (i : Nat) : String := if i = 0 then s ++ "_p" else s ++ "_p" ++ toString i
 
-def AtomicF.renameSym (conf : List Pred) : AtomicF → AtomicF
-  | .atom a => .atom ⟨a.pred, a.args.map (GTerm.renameSym conf)⟩
-  | .cmp t gs => .cmp (t.renameSym conf) (gs.map fun g => ⟨g.rel, g.term.renameSym conf⟩)
-  | a => a
+/-- the `while occupied.contains(&name)` loop: first index from `i` whose name is free -/
+def findPropName (occ : List String) (s : String) : Nat → Nat → Nat
+  | 0, i => i
+  | fuel + 1, i => if propName s i ∈ occ then findPropName occ s fuel (i + 1) else i
 
-def Formula.renameSym (conf : List Pred) : Formula → Formula
-  | .atomic a => .atomic (a.renameSym conf)
-  | .not f => .not (f.renameSym conf)
-  | .bin c l r => .bin c (l.renameSym conf) (r.renameSym conf)
-  | .quant q vs f => .quant q vs (f.renameSym conf)
+def propRenameStep (acc : List String × List (String × String)) (s : String) :
+    List String × List (String × String) :=
+  let n := propName s (findPropName acc.1 s (acc.1.length + 1) 0)
+  (acc.1 ++ [n], acc.2 ++ [(s, n)])
 
-/-- `rename_conflicting_symbols`: a symbol equal to a 0-ary predicate of the problem gets `__s`. -/
+/-- the names occupied in a problem: symbolic constants, predicate symbols (any arity), placeholders -/
+def Problem.occupiedNames (p : Problem) : List String :=
+  p.symbols ++ p.preds.map (·.symbol) ++ p.fcs.map (·.name)
+
+/-- the propositional predicates that share their name with a symbolic constant, with the new names -/
+def Problem.propRenaming (p : Problem) : List (String × String) :=
+  (((p.preds.filter fun q => q.arity = 0 && q.symbol ∈ p.symbols).map (·.symbol)).foldl propRenameStep
+    (p.occupiedNames, [])).2
+
+def renameProp (m : List (String × String)) (a : Atom) : Atom :=
+  if a.args.isEmpty then
+    match m.find? (fun e => e.1 = a.pred) with
+    | some e => ⟨e.2, []⟩
+    | none => a
+  else a
+
+def Formula.renameProps (m : List (String × String)) : Formula → Formula
+  | .atomic (.atom a) => .atomic (.atom (renameProp m a))
+  | .atomic a => .atomic a
+  | .not f => .not (f.renameProps m)
+  | .bin c l r => .bin c (l.renameProps m) (r.renameProps m)
+  | .quant q vs f => .quant q vs (f.renameProps m)
+
+/-- `rename_conflicting_symbols` (since fix of the symbol-order defect): a propositional predicate whose
+    name is also a symbolic constant of the problem is renamed to a free name; symbolic constants keep
+    their names (and hence their place in the order). -/
 def Problem.renameConflictingSymbols (p : Problem) : Problem :=
-  let conf := p.preds.filter (·.arity = 0)
-  { p with formulas := p.formulas.map fun a => { a with formula := a.formula.renameSym conf } }
-
-/-- Does `rename_conflicting_symbols` change the problem's meaning? A renamed constant `c__s` denotes a
-    different element of the standard domain; this is harmless only if the renaming is injective on
-    the problem's symbols and preserves their (lexicographic) order. Returns the offending pairs. -/
-def Problem.renameOrderIssues (p : Problem) : List (String × String) :=
-  let conf := p.preds.filter (·.arity = 0)
-  let r : String → String := fun s => if (⟨s, 0⟩ : Pred) ∈ conf then s ++ "__s" else s
-  let syms := p.symbols
-  (syms.flatMap fun a => syms.filterMap fun b =>
-    if a < b ∧ ¬ (r a < r b) then some (a, b) else none)
+  let m := p.propRenaming
+  { p with formulas := p.formulas.map fun a => { a with formula := a.formula.renameProps m } }
 
 def Problem.uniqueNames (p : Problem) : Problem :=
   { p with formulas := (indexFrom 0 p.formulas).map fun (i, a) =>
